@@ -380,7 +380,17 @@ def check_inv(d, hash_of_key):
 
 
 # ----------------------------------------------------------------------------------------------- running
+def run_one(ctx, exe, line, timeout=30):
+    rc, out, err = ctx.run_lines([exe], [line], timeout=timeout)
+    if out:
+        return out[0]
+    return "CRASH rc=%d %s" % (rc, "hang(timeout)" if rc == 124 else err[-200:].replace("\n", " "))
+
+
 def run_sharded(ctx, exe, lines, shards=16, timeout=600):
+    """Run `lines` through `exe` in parallel shards.  A shard that crashes or hangs (a broken iterator can make
+    Array.from / forEach loop forever) is re-run line by line with a short timeout so that only the culprit lines are
+    marked CRASH."""
     if not lines:
         return []
     shards = max(1, min(shards, len(lines) // 50 + 1))
@@ -392,7 +402,10 @@ def run_sharded(ctx, exe, lines, shards=16, timeout=600):
     with cf.ThreadPoolExecutor(max_workers=shards) as ex:
         for i, rc, out, err in ex.map(work, range(shards)):
             if len(out) < len(chunks[i]):
-                out = out + ["CRASH rc=%d %s" % (rc, err[-200:].replace("\n", " "))] * (len(chunks[i]) - len(out))
+                done = len(out)
+                rest = chunks[i][done:]
+                with cf.ThreadPoolExecutor(max_workers=16) as ex2:
+                    out = out + list(ex2.map(lambda l: run_one(ctx, exe, l), rest))
             outs[i] = out
     res = [None] * len(lines)
     for i in range(shards):
@@ -435,22 +448,22 @@ def signature(case, ops, bad):
 
 
 def shrink_and_report(ctx, h, case, bad):
+    crash = bad[1] == "results"
     def fails(ops):
-        out = ctx.run_lines([h], [case.line(ops)], timeout=60)[1]
-        return bool(out) and judge(case, out[0], ops) is not None
-    ops = list(case.ops[:bad[0] + 1])
+        return judge(case, run_one(ctx, h, case.line(ops), timeout=20), ops) is not None
+    ops = list(case.ops) if crash else list(case.ops[:bad[0] + 1])
     try:
         if fails(ops):
             ops = ctx.ddmin(ops, fails)
     except Exception:
         pass
-    out = ctx.run_lines([h], [case.line(ops)], timeout=60)[1]
-    b2 = judge(case, out[0] if out else "CRASH", ops) or bad
+    out = run_one(ctx, h, case.line(ops), timeout=20)
+    b2 = judge(case, out, ops) or bad
     sig = signature(case, ops, b2)
     exp = [t for t, _ in oracle(case, ops)]
     ctx.violation(sig, "%s: op %s expected %s, implementation gave %s (ops: %s)" % (case.mode, ops[b2[0]] if b2[0] < len(ops) else "?", b2[1], b2[2], " ".join(ops)),
                   {"kind": "history", "case": case.to_json(), "ops": ops, "line": case.line(ops), "expected": exp,
-                   "observed": [map_keys(case, r) for r in split_out(out[0] if out else "", len(ops))[0]]})
+                   "observed": [map_keys(case, r) for r in split_out(out, len(ops))[0]] if not out.startswith("CRASH") else out})
 
 
 def corpus_cases():
@@ -487,12 +500,12 @@ def main(ctx):
     rng = ctx.rng
     cases = corpus_cases()
     ncorp = len(cases)
-    ngen = 2500 if quick else 60000
+    ngen = 2500 if quick else 40000
     for i in range(ngen):
         cases.append(gen_case(rng, maxlen=40 if i % 10 else 120))
     lines = [c.line() for c in cases]
     ctx.log("running %d cases (%d corpus)" % (len(cases), ncorp))
-    impl = run_sharded(ctx, h, lines)
+    impl = run_sharded(ctx, h, lines, timeout=120 if quick else 900)
     mod = run_sharded(ctx, model, lines, shards=8) if model else [None] * len(lines)
 
     stats = {"modes": {}, "ops": {}, "iter_kinds": {}, "len_hist": {}, "collision_cases": 0, "clear_during_iter": 0,
@@ -622,7 +635,7 @@ def replay(ctx, path):
     print("line:     ", line)
     exp = [t for t, _ in oracle(case, ops)]
     print("expected: ", " ".join(exp))
-    out = ctx.run_lines([h], [line])[1]
+    out = [run_one(ctx, h, line, timeout=30)]
     res = split_out(out[0] if out else "", len(ops))[0]
     print("observed: ", " ".join(map_keys(case, x) for x in res))
     if os.path.exists(ctx.model_exe()):
